@@ -4921,6 +4921,11 @@ fn main() {
             rules_case(&mut ses, &mut sut, &mut g, idx / 20);
         }
     }
+    ses.note(format!(
+        "system composite 2: 6 variant tours + 10 collection tours (4 collection kinds x 2 minter flavours, 2 base->updatable migrations) + {} pair tours + {n} random histories (2 of 7 steps are collection traffic by holders / spenders / operators / creator / strangers / the minter address); every answer carries the complete state of factory, minter, collection (as compcoll) and every whitelist; contract panics caught: {}",
+        rounds * 14,
+        sut.panics
+    ));
     ses.finish(&mut sut);
 }
 //GEN-END
